@@ -641,6 +641,56 @@ Theorem C16_alloc_shl_not_linear : forall c, 0 < c -> exists a n, 0 < a /\ 0 <= 
 Proof. exact shl_not_linear. Qed.
 Print Assumptions C16_alloc_shl_not_linear.
 
+(** (e) Lehmer gcd (integer/src/gcd/lehmer.rs over the C12 as-is model Int/GrlLehmer.v), Cross/LehmerTermination.v: the guess loop
+    never exhausts its fuel w + 1 (b + d doubles per iteration below COEFF_LIMIT), its cofactors stay in 0 ..= COEFF_LIMIT and either
+    b = 0 (no step guessed: Euclidean step) or the two combinations a x - b y, d y - c x, when both non-negative, have a sum
+    strictly below x + y; hence the outer loop of gcd_in_place strictly decreases x + y and gcd_large never runs out of fuel,
+    for every word size w >= 2 - without assuming that the guess is right. *)
+From Dashu Require Int.GrlLehmer.
+From Dashu Require Import Cross.LehmerTermination.
+
+Theorem C16_lehmer_guess_total : forall w xbar ybar, 2 <= w -> 0 <= ybar ->
+  match GrlLehmer.lehmer_guess w xbar ybar with
+  | Ok (a, b, c, d) => 0 <= a <= GrlLehmer.coeff_limit w /\ 0 <= b <= GrlLehmer.coeff_limit w /\ 0 <= c <= GrlLehmer.coeff_limit w /\
+                       0 <= d <= GrlLehmer.coeff_limit w /\
+                       (b = 0 \/ forall x y, 0 <= x -> 0 < y -> 0 <= a * x - b * y -> 0 <= d * y - c * x -> (a * x - b * y) + (d * y - c * x) < x + y)
+  | Panic _ => True
+  | _ => False
+  end.
+Proof. exact lehmer_guess_total. Qed.
+Print Assumptions C16_lehmer_guess_total.
+
+Theorem C16_lehmer_guess_dword_total : forall w xbar ybar, 2 <= w -> 0 <= ybar ->
+  match GrlLehmer.lehmer_guess_dword w xbar ybar with
+  | Ok (a, b, c, d) => 0 <= a <= GrlLehmer.coeff_limit w /\ 0 <= b <= GrlLehmer.coeff_limit w /\ 0 <= c <= GrlLehmer.coeff_limit w /\
+                       0 <= d <= GrlLehmer.coeff_limit w /\
+                       (b = 0 \/ forall x y, 0 <= x -> 0 < y -> 0 <= a * x - b * y -> 0 <= d * y - c * x -> (a * x - b * y) + (d * y - c * x) < x + y)
+  | Panic _ => True
+  | _ => False
+  end.
+Proof. exact lehmer_guess_dword_total. Qed.
+Print Assumptions C16_lehmer_guess_dword_total.
+
+Theorem C16_lehmer_loop_terminates : forall fuel mdl w ml x y sw, 2 <= w -> 0 <= ml -> 0 <= y <= x -> x + y < Z.of_nat fuel ->
+  match GrlLehmer.lehmer_loop fuel mdl w ml x y sw with
+  | Ok (x', y', _) => 0 <= y' <= x' /\ x' + y' <= x + y
+  | Panic _ => True
+  | _ => False
+  end.
+Proof. exact lehmer_loop_terminates. Qed.
+Print Assumptions C16_lehmer_loop_terminates.
+
+Theorem C16_lehmer_gcd_terminates : forall fuel w x y, 2 <= w -> 0 <= x -> 0 <= y -> x + y < Z.of_nat fuel ->
+  GrlLehmer.lehmer_gcd_asis fuel w x y <> OutOfFuel.
+Proof. exact lehmer_gcd_asis_terminates. Qed.
+Print Assumptions C16_lehmer_gcd_terminates.
+
+(** the allocation size of the power-of-two parser (`src.len().checked_mul(log_radix).expect(..)`, parse/power_two.rs:55) cannot
+    overflow for any text that fits the address space: log_radix <= 5 *)
+Theorem C16_parse_pow2_bits_fit : forall len log_radix, 0 <= len < 2 ^ 61 -> 1 <= log_radix <= 5 -> len * log_radix < 2 ^ 64.
+Proof. intros len lr H1 H2. assert (len * lr <= len * 5) by nia. lia. Qed.
+Print Assumptions C16_parse_pow2_bits_fit.
+
 (** the index-slice expressions present in the parser sources are exactly the modelled ones (regenerated list) *)
 From Coq Require Import String.
 Theorem C16_slice_sites_modelled :
